@@ -28,7 +28,8 @@ import py2lean
 # generated modules, in dependency order
 GEN = [("operation", "dsw/operation.py", "DswModel.Gen.Operation"),
        ("graphized", "dsw/graphized.py", "DswModel.Gen.Graphized"),
-       ("spiderweb", "dsw/spiderweb.py", "DswModel.Gen.Spiderweb")]
+       ("spiderweb", "dsw/spiderweb.py", "DswModel.Gen.Spiderweb"),
+       ("biofilter", "dsw/biofilter.py", "DswModel.Gen.Biofilter")]
 
 TIES = {
     "operation": {
@@ -72,6 +73,14 @@ TIES = {
             "connect_coding_graph": ("DswModel.Tie.SwCoding", ["tie_connect_coding_graph"]),
         },
         "extra_modules": ["DswModel.Tie.SwCorollaries", "DswModel.Tie.RepCorollaries", "DswModel.Tie.GraphCorollaries"],
+    },
+    "biofilter": {
+        "theorems": {
+            "LocalBioFilter.__init__": ("DswModel.Tie.BfValid", ["tie_LocalBioFilter_init"]),
+            "LocalBioFilter.valid": ("DswModel.Tie.BfValid", ["tie_LocalBioFilter_valid", "tie_LocalBioFilter"]),
+            "DefaultBioFilter.valid": ("DswModel.Tie.BfValid", ["tie_DefaultBioFilter_valid"]),
+        },
+        "extra_modules": ["DswModel.Tie.BfCorollaries"],
     },
 }
 
